@@ -30,7 +30,8 @@ class Holder:
 
 
 class World:
-    def __init__(self, shape: str, kind: str, opts: Tuple[int, ...], invs: Tuple[bool, ...], via: int) -> None:
+    def __init__(self, shape: str, kind: str, opts: Tuple[int, ...], invs: Tuple[bool, ...], via: int,
+                 inv_all: bool = False) -> None:
         self.h = Holder()
         self.classes = {}  # type: Dict[str, type]
         self.creation_error = {}  # type: Dict[str, BaseException]
@@ -88,7 +89,9 @@ class World:
                     exec(src, g)
                     cls = g[cname]
                 if invs[k]:
-                    cls = icontract.invariant(cond("inv", cname), error=err("inv", cname))(cls)
+                    cls = icontract.invariant(
+                        cond("inv", cname), error=err("inv", cname),
+                        check_on=(icontract.InvariantCheckEvent.ALL if inv_all else icontract.InvariantCheckEvent.CALL))(cls)
             except (TypeError, ValueError) as ex:
                 self.creation_error[cname] = ex
                 continue
@@ -150,7 +153,7 @@ def reference(shape: str, opts: Tuple[int, ...], invs: Tuple[bool, ...]) -> Dict
     return info
 
 
-def run_dag(shape_i: int, kind_i: int, via: int, o0: int, o1: int, o2: int, o3: int, i0: bool, i1: bool, i2: bool, i3: bool,
+def run_dag(shape_i: int, kind_i: int, via: int, inv_all: bool, o0: int, o1: int, o2: int, o3: int, i0: bool, i1: bool, i2: bool, i3: bool,
             a0: bool, a1: bool, a2: bool, a3: bool, q0: bool, q1: bool, q2: bool, q3: bool,
             v0: bool, v1: bool, v2: bool, v3: bool) -> Tuple[bool, bool]:
     shape_i, kind_i, via = conc(shape_i, 0, len(SHAPE_NAMES) - 1), conc(kind_i, 0, len(KINDS) - 1), conc(via, 0, 1)
@@ -161,11 +164,12 @@ def run_dag(shape_i: int, kind_i: int, via: int, o0: int, o1: int, o2: int, o3: 
     invs = tuple((True if b else False) for b in (i0, i1, i2, i3)[:n])
     if kind in ("static", "class"):
         pass
-    key = (shape, kind, opts, invs, via)
+    inv_all = True if inv_all else False  # the invariants are declared with check_on=ALL instead of the default CALL
+    key = (shape, kind, opts, invs, via, inv_all)
     with untraced():
         w = _CACHE.get(key)
         if w is None:
-            w = World(shape, kind, opts, invs, via)
+            w = World(shape, kind, opts, invs, via, inv_all)
             _CACHE[key] = w
         w.h = Holder()
         ref = reference(shape, opts, invs)
@@ -255,11 +259,11 @@ def run_dag(shape_i: int, kind_i: int, via: int, o0: int, o1: int, o2: int, o3: 
         if want in ("inv", "pre") and any(e[0] == "body" for e in w.h.log):
             ok = False
         trace.append((cname, want))
-    note((shape, kind, opts, invs, via, tuple(trace)), witness)
+    note((shape, kind, opts, invs, via, inv_all, tuple(trace)), witness)
     return ok, witness
 
 
-ALL = ["shape_i", "kind_i", "via", "o0", "o1", "o2", "o3", "i0", "i1", "i2", "i3", "a0", "a1", "a2", "a3",
+ALL = ["shape_i", "kind_i", "via", "inv_all", "o0", "o1", "o2", "o3", "i0", "i1", "i2", "i3", "a0", "a1", "a2", "a3",
        "q0", "q1", "q2", "q3", "v0", "v1", "v2", "v3"]
 
 
@@ -438,7 +442,7 @@ def harnesses(tier: str) -> List[H]:
                 else:
                     params.append(I("o%d" % i, 0, len(OPTS) - 1))
             inv_classes = [0] if tier == "quick" else [0, n - 1]
-            params += [B("i%d" % i) for i in inv_classes]
+            params += [B("i%d" % i) for i in inv_classes] + [B("inv_all")]
             params += truth(n) + [B("v%d" % i) for i in inv_classes]
             name = "dag_{}_{}_via{}{}".format(shape, kind, via, "" if o0 is None else "_o%d" % o0)
             out.append(H(name, bind(run_dag, (), ALL, defaults, [p.name for p in params]), params, tiers=(tier,),
